@@ -278,6 +278,12 @@ def sem_action(ast, predicates, functions):
     return {"name": name, "params": params, "pre": pre, "eff": eff}
 
 
+def _check_types(d, tys):
+    for t in tys:
+        if t != "object" and t not in d["types"]:
+            raise Malformed(f"undeclared type {t}")
+
+
 def sem_domain(ast):
     if is_atom(ast) or not ast or ast[0] != "define":
         raise Malformed("define")
@@ -294,6 +300,7 @@ def sem_domain(ast):
             d["types"] = sem_types(sec[1:])
         elif h == ":constants":
             d["constants"] = sem_typed_list(sec[1:])
+            _check_types(d, [t for _, t in d["constants"]])
         elif h == ":predicates":
             for p in sec[1:]:
                 if p and p[0] == ":private":
@@ -308,6 +315,7 @@ def sem_domain(ast):
                 d["functions"][f[0]] = sem_typed_list(f[1:], need_qmark=True)
         elif h == ":action":
             a = sem_action(sec[1:], d["predicates"], d["functions"])
+            _check_types(d, [t for _, t in a["params"]])
             d["actions"][a["name"]] = a
         else:
             pass
@@ -400,6 +408,8 @@ def norm(x):
         h = x[0]
         if h in ("and", "or"):
             kids = [norm(k) for k in x[1]]
+            if len(kids) == 1:
+                return kids[0]            # a conjunction / disjunction of one item denotes the item
             return (h, tuple(sorted(kids, key=repr)))
         if h == "forall":
             return ("forall", x[1], x[2], norm(x[3]))
